@@ -1816,8 +1816,46 @@ class Interp:
             ctx.pc.pop()
         return self.join_env(o1, o2)
 
+    @staticmethod
+    def _uncontinue(stmts):
+        """`if c: A; continue` followed by REST is `if c: A else: REST` (guard clauses and early ends of one round of a loop body); None when a
+        `continue` / `break` remains that this reading does not cover"""
+        def leaves(sts):
+            for st in sts:
+                if isinstance(st, (ast.Continue, ast.Break)):
+                    return True
+                if isinstance(st, (ast.For, ast.While, ast.FunctionDef, ast.AsyncFunctionDef, ast.ClassDef)):
+                    continue
+                for fld in ("body", "orelse", "finalbody"):
+                    sub = getattr(st, fld, None)
+                    if isinstance(sub, list) and leaves(sub):
+                        return True
+                for h in getattr(st, "handlers", []) or []:
+                    if leaves(h.body):
+                        return True
+            return False
+
+        def rec(sts):
+            out = []
+            for k_, st in enumerate(sts):
+                if isinstance(st, ast.If) and st.body and isinstance(st.body[-1], ast.Continue) and not leaves(st.body[:-1]) and not leaves(st.orelse):
+                    rest = rec(list(st.orelse) + list(sts[k_ + 1:]))
+                    if rest is None:
+                        return None
+                    new = ast.If(st.test, list(st.body[:-1]) or [ast.copy_location(ast.Pass(), st)], rest or [ast.copy_location(ast.Pass(), st)])
+                    out.append(ast.copy_location(new, st))
+                    return out
+                out.append(st)
+            return None if leaves(out) else out
+        return rec(list(stmts))
+
     def _unrolled(self, s, items, env, ctx):
         """for-loop over a tuple the interpreter knows item by item (*args, kwargs.items(), zip(names, args), ...)"""
+        body_ = self._uncontinue(s.body)
+        if body_ is not None and body_ is not s.body:
+            import copy as _copy
+            s = _copy.copy(s)
+            s.body = body_
         ctx.loops.append({"breaks": [], "conts": []})
         cur, brk = env, None
         try:
